@@ -83,7 +83,7 @@ pub mod local {
     pub struct TagA;
     pub struct TagB;
 
-    #[allow(private_interfaces, dead_code)]
+    #[allow(private_interfaces, dead_code, non_local_definitions)]
     pub fn scope_a() -> &'static str {
         #[derive(Debug, Clone, Identifiable)]
         pub struct Local;
@@ -93,7 +93,7 @@ pub mod local {
         std::any::type_name::<Local>()
     }
 
-    #[allow(private_interfaces, dead_code)]
+    #[allow(private_interfaces, dead_code, non_local_definitions)]
     pub fn scope_b() -> &'static str {
         #[derive(Debug, Clone, Identifiable)]
         pub struct Local(pub u8);
@@ -254,4 +254,126 @@ impl<Q: Query<Value = String>, C: Config> Executor<Q, C> for Exec {
         self.runs.fetch_add(1, std::sync::atomic::Ordering::SeqCst);
         format!("{}|{}|{:?}", self.tag, std::any::type_name::<Q>(), query)
     }
+}
+
+// ---------------------------------------------------------------------------
+// type-erased query cases
+// ---------------------------------------------------------------------------
+
+use std::{future::Future, pin::Pin, sync::Arc};
+
+use qbice::{
+    Engine,
+    query::QueryID,
+    stable_hash::{BuildStableHasher, SeededStableHasherBuilder, Sip128Hasher, StableHasher},
+};
+
+use crate::eng::KvCfg;
+
+/// The id of `q` computed the way `Engine::new_query_with_id` does: the
+/// engine's stable hasher (same builder, same seed) over the key, plus the
+/// stable type id of the query type.
+pub fn query_id<Q: Query>(q: &Q, hseed: u64) -> QueryID {
+    let b = SeededStableHasherBuilder::<Sip128Hasher>::new(hseed);
+    let mut h = b.build_stable_hasher();
+    q.stable_hash(&mut h);
+    QueryID::new::<Q>(h.finish().into())
+}
+
+pub trait AnyQ: Send + Sync {
+    /// `std::any::type_name` of the query type: distinct for distinct Rust types.
+    fn ty(&self) -> String;
+    fn key(&self) -> String;
+    fn id(&self, hseed: u64) -> QueryID;
+    fn register(&self, engine: &mut Engine<KvCfg>, exec: &Exec);
+    fn query<'a>(&'a self, te: &'a TrackedEngine<KvCfg>) -> Pin<Box<dyn Future<Output = String> + 'a>>;
+}
+
+pub struct W<Q>(pub Q);
+
+pub fn clean(s: &str) -> String {
+    s.chars()
+        .map(|c| match c {
+            '"' => '\'',
+            '\\' => '/',
+            '|' => '!',
+            c if c.is_control() => '?',
+            c => c,
+        })
+        .collect()
+}
+
+impl<Q: Query<Value = String>> AnyQ for W<Q> {
+    fn ty(&self) -> String { std::any::type_name::<Q>().to_string() }
+
+    fn key(&self) -> String { clean(&format!("{:?}", self.0)) }
+
+    fn id(&self, hseed: u64) -> QueryID { query_id(&self.0, hseed) }
+
+    fn register(&self, engine: &mut Engine<KvCfg>, exec: &Exec) {
+        engine.register_executor::<Q, Exec>(Arc::new(exec.clone()));
+    }
+
+    fn query<'a>(&'a self, te: &'a TrackedEngine<KvCfg>) -> Pin<Box<dyn Future<Output = String> + 'a>> {
+        Box::pin(async move { te.query(&self.0).await })
+    }
+}
+
+pub fn case<Q: Query<Value = String>>(q: Q) -> Box<dyn AnyQ> { Box::new(W(q)) }
+
+/// Two DISTINCT query types named `LocalQ`, local to two functions.
+pub mod lq {
+    use qbice::{Decode, Encode, Identifiable, StableHash, query::Query};
+
+    use super::{AnyQ, case};
+
+    pub fn scope_a(k: u16) -> Box<dyn AnyQ> {
+        #[derive(Debug, Clone, PartialEq, Eq, Hash, StableHash, Encode, Decode, Identifiable)]
+        struct LocalQ(u16);
+        impl Query for LocalQ {
+            type Value = String;
+        }
+        case(LocalQ(k))
+    }
+
+    pub fn scope_b(k: u16) -> Box<dyn AnyQ> {
+        #[derive(Debug, Clone, PartialEq, Eq, Hash, StableHash, Encode, Decode, Identifiable)]
+        struct LocalQ(u16);
+        impl Query for LocalQ {
+            type Value = String;
+        }
+        case(LocalQ(k))
+    }
+}
+
+/// The query universe of `bin/typeid_query.rs`.
+pub fn query_cases(with_local: bool) -> Vec<Box<dyn AnyQ>> {
+    let s = |x: &str| x.to_string();
+    let mut v: Vec<Box<dyn AnyQ>> = vec![
+        // different types, equal key values
+        case(QA(0)), case(QA(1)), case(QA(256)), case(QB(0)), case(QB(1)), case(QB(256)),
+        case(qa::Q(1)), case(qb::Q(1)),
+        case(GQ::<u16>(1)), case(GQ::<i16>(1)), case(GQ::<u16>(0)), case(GQ::<i16>(0)),
+        case(PQ::<qa::M>(1, PhantomData)), case(PQ::<qb::M>(1, PhantomData)),
+        // one type, keys that are zero / extreme / byte-shifted
+        case(QU64(0)), case(QU64(1)), case(QU64(256)), case(QU64(1 << 32)), case(QU64(u64::MAX)),
+        // empty / prefix related strings
+        case(QStr(s(""))), case(QStr(s("a"))), case(QStr(s("ab"))), case(QStr(s("a\0"))), case(QStr(s("\0"))),
+        case(QPair(s(""), s(""))), case(QPair(s("ab"), s("c"))), case(QPair(s("a"), s("bc"))),
+        case(QPair(s("abc"), s(""))), case(QPair(s(""), s("abc"))),
+        // same flattening, different grouping
+        case(QVecs(vec![1, 2], vec![3])), case(QVecs(vec![1], vec![2, 3])), case(QVecs(vec![1, 2, 3], vec![])),
+        case(QVecs(vec![], vec![1, 2, 3])), case(QVecs(vec![], vec![])),
+        case(QBytes(vec![])), case(QBytes(vec![0])), case(QBytes(vec![0, 0])), case(QBytes(vec![1, 2, 3])),
+        case(QOpt(None)), case(QOpt(Some(None))), case(QOpt(Some(Some(0)))), case(QOpt(Some(Some(1)))),
+        case(QNest((1, (2, 3)), vec![vec![1, 2], vec![3]])), case(QNest((1, (2, 3)), vec![vec![1], vec![2, 3]])),
+        case(QNest((1, (2, 3)), vec![vec![1, 2, 3]])), case(QNest((1, (2, 3)), vec![vec![], vec![1, 2, 3]])),
+        case(QNest((1, (2, 3)), vec![])), case(QNest((3, (2, 1)), vec![])),
+    ];
+    if with_local {
+        v.push(lq::scope_a(1));
+        v.push(lq::scope_b(1));
+        v.push(lq::scope_a(2));
+    }
+    v
 }
